@@ -200,8 +200,22 @@ def run(eng: Engine, ck: Check):
     sm = eng.func(CONN, 'DataConnection.send_message')
     sends = calls_on(sm.node, '_send')
     ck.floor('R-C10-AFTER-CLOSED.send', len(sends), 1)
+    a_sm = sm.node.args
+    sm_defaults = dict(zip([x.arg for x in a_sm.args][len(a_sm.args) - len(a_sm.defaults):], a_sm.defaults))
+    sm_defaults.update({x.arg: d for x, d in zip(a_sm.kwonlyargs, a_sm.kw_defaults) if d is not None})
     for call in sends:
         g = eng.guarded_by(sm, call, lambda e, pol: (not pol) and mentions_attr(e, '_is_closing'))
+        # a `_send` on an OPT-IN path (under a test of a parameter that is false for the default value: `if raw:` with raw=False) is not what
+        # `send_message(message)` does; it is judged at the callers that opt in -- only the connection's own raw-data path may (send_data
+        # called `_send` directly before and never looked at _is_closing either)
+        opt_in = [unparse(e) for e, pol, _ in eng.guards_at(sm, call) if isinstance(e, ast.Name) and e.id in sm_defaults and
+                  isinstance(sm_defaults[e.id], ast.Constant) and bool(sm_defaults[e.id].value) != pol]
+        if g is None and opt_in:
+            users = [(f_, x) for f_ in repo.all_funcs() for x in calls_on(f_.node, 'send_message') if any(k.arg in opt_in for k in x.keywords)]
+            outside = [f_.qualname for f_, x in users if f_.module.rel != CONN or unparse(x.func.value) != 'self']
+            ck.ob('R-C10-AFTER-CLOSED', sm, call, f'the opt-in path of send_message ({opt_in}) is used only by the connection\'s own raw-data path', not outside,
+                  f'used from {outside}', construct='send opt-in path owners')
+            continue
         ck.ob('R-C10-AFTER-CLOSED', sm, call, 'send_message does not write once the connection is closing/closed',
               g is not None, 'the `_send` call is not dominated by `not self._is_closing`',
               construct='send guarded by _is_closing')
